@@ -8,6 +8,7 @@ import (
 	"encoding/hex"
 	"fmt"
 	"math"
+	"os"
 	"strings"
 
 	"diagonal.works/b6"
@@ -828,7 +829,7 @@ func generate(r *hx.Rand, thorough bool) ([]Feat, []string) {
 	if thorough {
 		heavyChance = 8
 	}
-	if r.Chance(1, heavyChance) {
+	if r.Chance(1, heavyChance) || os.Getenv("C01_HEAVY") != "" {
 		g.heavy(thorough)
 	}
 
@@ -881,7 +882,13 @@ func (g *gen) heavy(thorough bool) {
 		return small
 	}
 	p0 := g.points[0]
-	switch r.Intn(6) {
+	kind := r.Intn(6)
+	if dbg := os.Getenv("C01_HEAVY"); dbg != "" { // measuring aid: "<kind> <big 0|1>" forces the shape
+		var b int
+		fmt.Sscanf(dbg, "%d %d", &kind, &b)
+		big = b == 1
+	}
+	switch kind {
 	case 0: // a point with one very long string value (> 64 KB record)
 		n := 66000 + r.Intn(140000)
 		var sb strings.Builder
@@ -907,8 +914,8 @@ func (g *gen) heavy(thorough bool) {
 		g.fs = append(g.fs, Feat{ID: g.freshID(0, p0.NS), Tags: ts})
 		g.note(fmt.Sprintf("heavy:tags-%d", n))
 	case 2: // a lat/lng path with very many points (reading a path back is quadratic in its length — every
-		// PointAt(i) unmarshals the whole tag list — so 2^16 points would take hours; 3000 crosses 2^8 only)
-		n := pick(300, 3000)
+		// PointAt(i) unmarshals the whole tag list — so 2^16 points would take hours; 1000 crosses 2^8 only)
+		n := pick(300, 1000) // ≈ 15 s CPU at 1000 points (3000: > 2 min and 3 GB)
 		es := make([]Elem, n)
 		for i := range es {
 			es[i] = Elem{P: LL{Lat: g.cy + 500000 + int32(i), Lng: g.cx + int32(2*i)}}
@@ -916,7 +923,7 @@ func (g *gen) heavy(thorough bool) {
 		g.fs = append(g.fs, Feat{ID: g.freshID(1, nsWay), Tags: []Tag{{K: "path", V: Val{Kind: 'x', X: es}}}})
 		g.note(fmt.Sprintf("heavy:path-points-%d", n))
 	case 3: // a reference path that visits the same few points hundreds of times
-		n := pick(300, 2000)
+		n := pick(300, 600) // quadratic too, and every PointAt resolves the point: ≈ 10 s CPU at 600
 		es := make([]Elem, n)
 		for i := range es {
 			es[i] = Elem{IsRef: true, R: g.points[(i*7)%len(g.points)]}
